@@ -15,6 +15,8 @@ typed=" $($REFMUT -list | grep '(typed)' | sed 's/ (typed)//' | tr '\n' ' ')"
 dirs=$(python3 - $prop <<'PY'
 import re,sys
 for l in open('/verif/checker/anchors_gen.go'):
+    if l.startswith('var anchorFiles'):
+        break  # (only the package directories, the first table)
     m=re.match(r'\s*"(C\d+)": \{(.*)\},',l)
     if m and m.group(1)==sys.argv[1]:
         print(' '.join(x.strip().strip('"') for x in m.group(2).split(',')))
